@@ -82,6 +82,29 @@ func c20Run(ci any) Result {
 			}
 		}
 	}
+	// a NAME TWIN on the same router: the target's pattern registered for another method under the same name (what
+	// `e.Match([]string{GET, POST}, path, h)` or one named handler on several verbs produces).  Reverse may pick either
+	// route of that name — both reverse to the same URL — and the request with the target's method must still reach the target.
+	nameTwin := false
+	if !byHandler && !inGroup && onHost == "" && (c.Idx+len(c.Routes))%2 == 0 && c.Idx < len(c.Routes) {
+		tm := "PROPFIND"
+		if c.Routes[c.Idx].Method == tm {
+			tm = "REPORT"
+		}
+		free := c.Routes[c.Idx].Method != routeNotFound
+		tkey := rTokKey(func() []rTok { t, _, _ := rNorm(c.Routes[c.Idx].Path); return t }())
+		for _, r := range c.Routes {
+			t2, _, _ := rNorm(r.Path)
+			if r.Method == tm && rTokKey(t2) == tkey {
+				free = false
+			}
+		}
+		if free {
+			nameTwin = true
+			reg.Add(tm, c.Routes[c.Idx].Path, func(ctx echo.Context) error { return ctx.NoContent(http.StatusTeapot) }).Name = name(c.Idx)
+			routes = append(append([]rRoute{}, routes...), rRoute{Method: tm, Path: c.Routes[c.Idx].Path})
+		}
+	}
 	hostTwin := (c.Idx+len(c.Args))%3 == 0
 	if hostTwin {
 		// a host router carries routes with the SAME names (explicit names, or the same handler functions) under
@@ -204,6 +227,9 @@ func c20Run(ci any) Result {
 	}
 	if hostTwin {
 		tags = append(tags, "host-router-with-equal-names")
+	}
+	if nameTwin {
+		tags = append(tags, "same-name-on-another-method-of-the-pattern")
 	}
 	if byHandler {
 		tags = append(tags, "named-by-handler(URI/URL)")
